@@ -14,11 +14,11 @@ RULE = (
     "hash, lowest_terms) over a shared population built from twin families that collide under == and hash (scaled counts, "
     "zero-count padding, equal-valued outcomes of int / float / Fraction / bool type, H(h) aliases, lowest_terms() objects); every "
     "warm answer is compared with the model's history-free answer and — outcomes, their TYPES and positive counts — with the "
-    "answer the same query gives cold (fresh objects, every functools cache cleared); distinct = distinct history; non-trivial = "
+    "answer the same query gives in a freshly forked pristine interpreter and cold in-process (fresh objects, every functools cache cleared); distinct = distinct history; non-trivial = "
     ">= 2 queries touch objects of one twin family"
 )
 TRUSTED = [
-    "'fresh interpreter' is emulated in-process: all objects rebuilt from their descriptions and cache_clear() on every functools cache of dyce.p / dyce.h",
+    "'fresh interpreter' = (a) a child forked per query from a pristine process that has imported dyce and computed nothing (harness/coldserver.py), (b) in-process: all objects rebuilt from their descriptions and cache_clear() on every functools cache of dyce.p / dyce.h",
     "values reach the model rank-encoded (types are compared warm-vs-cold on the implementation side)",
 ]
 ASSUMPTIONS = ["outcomes are totally ordered numbers"]
@@ -100,6 +100,55 @@ def _safe_query(q, hs, ps):
         return "err IndexError", ""
 
 
+_SERVER = None
+
+
+def _cold_server():
+    """the pristine fork server (harness/coldserver.py), started on first use"""
+    global _SERVER
+    import atexit
+    import os
+    import subprocess
+    import sys
+
+    if _SERVER is None or _SERVER.poll() is not None:
+        here = os.path.dirname(os.path.dirname(os.path.abspath(__file__)))
+        _SERVER = subprocess.Popen([sys.executable, "-B", os.path.join(here, "coldserver.py")], stdin=subprocess.PIPE, stdout=subprocess.PIPE, text=True, bufsize=1)
+        atexit.register(_stop_server)
+    return _SERVER
+
+
+def _stop_server():
+    global _SERVER
+    if _SERVER is not None:
+        try:
+            _SERVER.kill()
+            _SERVER.wait(timeout=5)
+        except Exception:
+            pass
+        _SERVER = None
+
+
+def _cold_fresh(case, qi):
+    """the answer of query `qi` in a freshly forked pristine interpreter"""
+    import json
+
+    srv = _cold_server()
+    try:
+        srv.stdin.write(json.dumps({"case": case, "qi": qi}) + "\n")
+        srv.stdin.flush()
+        line = srv.stdout.readline()
+        if not line:
+            raise RuntimeError("cold server died")
+        res = json.loads(line)
+    except BaseException:
+        _stop_server()  # never reuse a server that may be mid-request (e.g. after a case timeout)
+        raise
+    if isinstance(res, dict):
+        return "exc " + res["exc"], ""
+    return res[0], res[1]
+
+
 def impl(case):
     C.clear_caches()
     hs, ps = _build(case)
@@ -108,12 +157,17 @@ def impl(case):
     for q in case["queries"]:
         v, t = _safe_query(q, hs, ps)
         warm.append((v, t))
-    # the same queries, each in a "fresh interpreter"
-    for q, (v, t) in zip(case["queries"], warm):
+    # the same queries, each in a fresh interpreter: (a) a freshly forked pristine process, (b) in-process emulation
+    for qi, (q, (v, t)) in enumerate(zip(case["queries"], warm)):
+        s = v
+        fv, ft = _cold_fresh(case, qi)
+        if fv != v:
+            s += " DIFFERS-FROM-FRESH-PROCESS(%s)" % fv
+        if ft != t:
+            s += " TYPES-DIFFER-FROM-FRESH-PROCESS(warm %s / fresh %s)" % (t, ft)
         C.clear_caches()
         chs, cps = _build(case)
         cv, ct = _safe_query(q, chs, cps)
-        s = v
         if cv != v:
             s += " DIFFERS-FROM-COLD(%s)" % cv
         if ct != t:
